@@ -36,7 +36,8 @@ def sea_cells(G, sub=None):
 def scenario(draw, max_steps=12, reverse=None, layouts=("sparse", "dense"), extra_forcing=None,
              min_gap=2, kills=True, masks=("none", "islands", "coast"), advection=("EF", "RK2", "RK4"),
              numrec=(0, 1, 2, 3), continuous=(False, True), pvars=None, lonlat=(False, True),
-             dtypes=("f8",), out_of_grid=True, ref_kinds=("none", "before", "start", "after")):
+             dtypes=("f8",), out_of_grid=True, ref_kinds=("none", "before", "start", "after"),
+             subgrids=(False, False, True), late_release=(0, 0, 0, 1, 2)):
     jm = draw(st.integers(7, 11))
     im = draw(st.integers(8, 12))
     N = draw(st.integers(2, 4))
@@ -66,9 +67,14 @@ def scenario(draw, max_steps=12, reverse=None, layouts=("sparse", "dense"), extr
                u=draw(st.sampled_from([0.0, 0.1, -0.2, 0.45 if out_of_grid else 0.1])),
                v=draw(st.sampled_from([0.0, -0.1, 0.15])), seed=draw(st.integers(0, 10**6)))
     xf = draw(st.booleans()) if extra_forcing is None else extra_forcing
-    # release rows
+    # optional subgrid (only on grids wide enough to keep sea cells in its valid region), offsets i0 != j0 likely
+    sub = None
+    if draw(st.sampled_from(subgrids)) and im >= 10 and jm >= 9:
+        sub = [draw(st.integers(1, 2)), im - 1 - draw(st.integers(0, 1)), draw(st.integers(1, 3)), jm - 1 - draw(st.integers(0, 1))]
+    # release rows; the first release may come some steps after the start (the model runs empty until then)
     ntimes = draw(st.integers(1, 4))
-    rel_steps = sorted(set([0] + [draw(st.integers(0, max(0, nsteps - 1))) for _ in range(ntimes - 1)]))
+    late = min(draw(st.sampled_from(late_release)), max(0, nsteps - 1))
+    rel_steps = sorted(set([late] + [draw(st.integers(late, max(late, nsteps - 1))) for _ in range(ntimes - 1)]))
     rows = []
     tag = 0
     for s in rel_steps:
@@ -94,7 +100,7 @@ def scenario(draw, max_steps=12, reverse=None, layouts=("sparse", "dense"), extr
     out = dict(period=draw(st.integers(1, 3)), numrec=draw(st.sampled_from(numrec)),
                layout=draw(st.sampled_from(layouts)), dtype=draw(st.sampled_from(dtypes)),
                ref=draw(st.sampled_from(ref_kinds)), lonlat=draw(st.sampled_from(lonlat)))
-    return dict(grid=dict(jm=jm, im=im, N=N, seed=gseed, mask=mask, h=hkind),
+    return dict(grid=dict(jm=jm, im=im, N=N, seed=gseed, mask=mask, h=hkind, sub=sub),
                 time=dict(nsteps=nsteps, reverse=rev, pre=pre),
                 forcing=dict(gaps=gaps, partition=part, vel=vel, temp=xf),
                 release=dict(rows=rows, continuous=cont, freq=freq),
@@ -155,10 +161,11 @@ def build(d: Path, scn, out_name="out.nc", record_output=True, record_ibm=False,
     if "kind" in pv:
         cols.append("kind")
     placed = []
+    first_step = min((r["step"] for r in rel["rows"]), default=0)
     for r in rel["rows"]:
         r = dict(r)
         if rel["continuous"]:  # file times on the release-frequency grid anchored at the first
-            r["step"] = (r["step"] // rel["freq"]) * rel["freq"]
+            r["step"] = first_step + ((r["step"] - first_step) // rel["freq"]) * rel["freq"]
         i, j = cells[r["cell"] % len(cells)]
         x, y = i + r["fx"], j + r["fy"]
         z = r["zf"] * float(G["h"][j, i])
